@@ -267,6 +267,15 @@ def run_case(case, ctx):
             w = _check_instant(base + off, ctx)
             if w:
                 return violated(w, ("day", y, m, d), bool(cls), cls)
+        # two timestamps used in turn: the same month and day of the neighbouring years (leap / common), then this
+        # day again -- whatever a conversion remembers of the previous one must be told apart by the year too
+        for yy in (y + 1, y - 1, y + 4):
+            if 1970 <= yy <= 2099 and not (m == 2 and d == 29 and not calendar.isleap(yy)):
+                for ms_ in (gen.ms_from_fields(yy, m, d) + 3723004, base + 3723004):
+                    w = _check_instant(ms_, ctx, other_types=False)
+                    if w:
+                        w["history"] = "converted right after the same month and day of another year"
+                        return violated(w, ("day", y, m, d), bool(cls), cls)
         return held(("day", y, m, d), bool(cls), cls or ["ordinary_day"])
     if kind == "seconds":
         y, m, d = case["ymd"]
